@@ -57,8 +57,37 @@ def preimport():
 FUNCS = ['sin', 'cos', 'exp', 'tan', 'sqrt', 'log']
 
 
+def normalise(spec):
+    """Reset every knob that has no influence on the form that build() constructs, so that two
+    specifications are equal iff they describe the same form."""
+    if spec.get('k') != 'tpl':
+        return spec
+    n = dict(spec)
+    if not n.get('fn'):
+        n.update(in_shape=[], phys=False, upd=False, in_deriv=False, in_comp=0)
+    if not n.get('in_shape'):
+        n['in_comp'] = 0
+    if n.get('comps'):
+        n.update(dtimes=0, dax=0, dpara=False, let=None)
+        if n['arity'] != 2:
+            n['vop'] = ''
+    else:
+        n['vop'] = ''
+        if not n.get('dtimes'):
+            n.update(dax=0, dpara=False)
+    if not n.get('op'):
+        n.update(c2=0.0, let=None)
+    if n.get('let') and (n['arity'] != 2 or n['boundary'] or n['surface'] or n.get('comps')):
+        n['let'] = None
+    if not n.get('mat_kind'):
+        n.update(mat_shape=[2, 3], mat_ij=[0, 0])
+    if n['arity'] != 2:
+        n['spaces'] = [0, 0]
+    return n
+
+
 def canon(spec):
-    return json.dumps(spec, sort_keys=True)
+    return json.dumps(normalise(spec), sort_keys=True)
 
 
 def predef_table():
@@ -77,8 +106,9 @@ def predef_table():
     return PREDEF
 
 
-def build(spec):
-    """A fresh VForm for the specification."""
+def build(spec, incremental=False):
+    """A fresh VForm for the specification.  incremental=True: the two terms are added one after the
+    other with a hash() query in between (returns None if the form refuses to be extended)."""
     from pyiga import vform
     from pyiga.vform import VForm, grad, inner, div, dx, ds
     if spec['k'] == 'predef':
@@ -135,6 +165,14 @@ def build(spec):
     e = M(coef * main)
     if spec['op']:
         t2 = M(spec['c2'] * second)
+        if incremental:
+            V.add(e)
+            V.hash()
+            try:
+                V.add(t2 if spec['op'] == '+' else -t2)
+            except RuntimeError:
+                return None         # "can no longer modify this VForm"
+            return V
         e = {'+': e + t2, '-': e - t2}[spec['op']]
     V.add(e)
     return V
@@ -172,6 +210,9 @@ def mutations(spec):
     if spec['op']:
         mut('operator', op={'+': '-', '-': '+'}[spec['op']])
         mut('constant2', c2=spec['c2'] + 1.0)
+        mut('extra-term', op='')
+    else:
+        mut('extra-term', op='+', c2=spec['c2'] or 1.5)
     if spec['fn'] and spec['fn'] != 'id':
         for g in FUNCS:
             if g != spec['fn']:
@@ -411,7 +452,22 @@ def run_case(ctx):
         if isinstance(t_req, str) and t_req == t_got:
             ctx.count('legal.sharing.identical.code')
             return
-        diff = [k for k in set(spec) | set(prov['spec']) if spec.get(k) != prov['spec'].get(k)]
+        if isinstance(t_req, str) and isinstance(t_got, str):
+            # generated text may depend on set iteration order: compare several fresh generations,
+            # modulo the order of statements
+            def variants(sp, o):
+                out = set()
+                for _ in range(4):
+                    try:
+                        out.add(tuple(sorted(fresh_text(sp, o).splitlines())))
+                    except Exception:
+                        pass
+                return out
+            if variants(spec, od) & variants(prov['spec'], prov['od']):
+                ctx.count('legal.sharing.identical.code.modulo.order')
+                return
+        ns, ps_ = normalise(spec), normalise(prov['spec'])
+        diff = [k for k in set(ns) | set(ps_) if ns.get(k) != ps_.get(k)]
         if prov['od'] != od:
             diff.append('on_demand')
         ctx.violation('wrong-assembler', '%s: request for %s (on_demand=%s) was answered with the assembler %s of %s '
@@ -420,7 +476,7 @@ def run_case(ctx):
                       sig('provenance', attrs=','.join(sorted(diff))))
 
     for r in range(nreq):
-        kind = rq.weighted([('vform', 10), ('reuse', 2), ('batch', 2), ('restart', 2)])
+        kind = rq.weighted([('vform', 10), ('reuse', 2), ('batch', 2), ('restart', 2), ('incremental', 2)])
         if kind == 'restart':
             inst = Instance(ctx, disk, moddir)
             seen_in_instance = set()
@@ -451,6 +507,18 @@ def run_case(ctx):
             vf = inst.vfs[i]
             how = 'compile_vform(same VForm object again)'
             ctx.count('op.resubmit.same.object')
+        elif kind == 'incremental' and spec.get('k') == 'tpl' and normalise(spec).get('op'):
+            # terms added one by one with a hash() query in between; a form that accepts this must
+            # still be compiled as the complete form
+            try:
+                vf = build(spec, incremental=True)
+            except Exception:
+                vf = None
+            if vf is None:
+                ctx.count('op.incremental.refused-by-vform')
+                continue
+            how = 'compile_vform(form extended after hash())'
+            ctx.count('op.incremental.accepted')
         else:
             vf = build(spec)
             inst.vfs[i] = vf
